@@ -65,6 +65,9 @@ type ruleInfo struct {
 }
 
 func NewCtx(p *Program, prop, tier string) *Ctx {
+	if canonProg != p {
+		canonProg, arithTemplates, canonMemo = p, nil, map[string]string{}
+	}
 	return &Ctx{P: p, Prop: prop, Tier: tier, rules: map[string]*ruleInfo{}, Extra: map[string]interface{}{}}
 }
 
